@@ -612,9 +612,11 @@ func (r *runner) exec(op string) string {
 				r.synced = false
 			}
 			return errTok(err)
-		case <-time.After(20 * time.Second):
+		case <-time.After(300 * time.Second):
+			// GC works for milliseconds; the bound is this generous because a loaded machine
+			// stalled a run for more than 20 s once (no wall-clock false alarms)
 			r.hung = true
-			r.fail("gc-hang", "GC did not return within 20 s")
+			r.fail("gc-hang", "GC did not return within 300 s")
 			return "hang"
 		}
 	case 'S':
@@ -1145,6 +1147,8 @@ func replay(path string) {
 				panic(err)
 			}
 			replayHistory(h)
+		} else if t, ok := c["tarfs"]; ok {
+			replayTarfs(t)
 		} else if m, ok := c["meta"]; ok {
 			f := strings.Split(m, ".")
 			seed, _ := strconv.ParseUint(f[0], 10, 64)
@@ -1162,8 +1166,13 @@ func main() {
 		replay(run.Replay)
 		return
 	}
-	n := run.Scale(1200, 12000)
+	n := run.Scale(1200, 10000)
 	for i := 0; i < n; i++ {
 		generateHistory(run.Seed, i, run.Thorough())
+	}
+	// internal/fs/tarfs on its own (Model/TarFS.v)
+	trnd := common.NewRand(common.NewRand(run.Seed).U64() ^ 0x7a7f5)
+	for i := 0; i < run.Scale(1500, 30000); i++ {
+		tarfsCase(trnd)
 	}
 }
